@@ -194,6 +194,10 @@ pub struct Case {
     pub creator: u8,
     #[serde(default)]
     pub init_funds: Vec<(u8, u8)>,
+    /// actor 3 is itself a contract (a proxy of its own) that answers every smart query put to it with
+    /// `{"can_execute":true}`; being asked gives nobody any rights here
+    #[serde(default)]
+    pub peer: bool,
 }
 
 fn default_creator() -> u8 {
@@ -498,7 +502,7 @@ pub fn case_strategy(prop: &str, tier: Tier) -> BoxedStrategy<Case> {
                 p
             });
             let probes = proptest::collection::vec(probe(subkeys), n_probes..=n_probes);
-            (admin_list(), proptest::bool::weighted(p_mutable), ops, probes, proptest::option::weighted(0.5, 0u8..N_ACTORS as u8), 0u8..N_SENDERS as u8, attached()).prop_map(move |(admins, mutable, ops, probes, chain_admin, creator, init_funds)| Case { subkeys, admins, mutable, ops, probes, chain_admin, creator, init_funds })
+            (admin_list(), proptest::bool::weighted(p_mutable), ops, probes, proptest::option::weighted(0.5, 0u8..N_ACTORS as u8), 0u8..N_SENDERS as u8, attached(), proptest::bool::weighted(0.3)).prop_map(move |(admins, mutable, ops, probes, chain_admin, creator, init_funds, peer)| Case { subkeys, admins, mutable, ops, probes, chain_admin, creator, init_funds, peer })
         })
         .boxed()
 }
@@ -971,6 +975,10 @@ fn differential(prop: &str, w: &World, pre: &Obs, t: &Track, sender: usize, msg:
 pub fn run_case(prop: &str, case: &Case, ctx: &mut CaseCtx) -> Result<(), Violation> {
     let mut w = World::new(case.subkeys);
     w.d.chain_admin = case.chain_admin.map(|i| w.senders[i as usize % N_ACTORS].clone());
+    if case.peer {
+        w.d.peers.insert(w.senders[3].to_string(), br#"{"can_execute":true}"#.to_vec());
+        ctx.count("obliging_peer_contract");
+    }
     let qerr = |e: String| v(prop, "query-failed", format!("a query failed or panicked: {e}"));
     ctx.count(if case.subkeys { "cases_subkeys" } else { "cases_whitelist" });
 
@@ -1910,5 +1918,6 @@ pub fn decode_case(prop: &str, u: &mut arbitrary::Unstructured) -> Case {
     let chain_admin = if arb_bool(u, 1, 2) { Some(arb_below(u, N_ACTORS) as u8) } else { None };
     let creator = arb_below(u, N_SENDERS) as u8;
     let init_funds = d_attached(u);
-    Case { subkeys, admins, mutable, ops, probes, chain_admin, creator, init_funds }
+    let peer = arb_bool(u, 1, 3);
+    Case { subkeys, admins, mutable, ops, probes, chain_admin, creator, init_funds, peer }
 }
